@@ -3,6 +3,7 @@ package main
 // SSA -> verification conditions for one function under contract.
 
 import (
+	"os"
 	"fmt"
 	"go/ast"
 	"go/token"
@@ -91,6 +92,7 @@ type Obligation struct {
 }
 
 type FuncTr struct {
+	guardInfo map[ssa.Value]*guardRef
 	lastCallRes *Val
 	lastCallSig *types.Signature
 	outerGhost map[string]*Term
@@ -194,10 +196,92 @@ func (ft *FuncTr) assert(at *Term, goal *Term, kind, detail, clause string, pos 
 		}
 		ft.asserted[key] = true
 	}
-	o := &Obligation{Name: ft.oblName(kind, detail), Func: ft.fn.String(), Kind: kind, PrefixLen: len(ft.cons), At: at, Goal: goal, Pos: ft.posStr(pos), Clause: clause}
+	name := ft.oblName(kind, detail)
+	if !strings.HasPrefix(kind, "safety.") && !noSplit {
+		// a conjunction is discharged conjunct by conjunct (independently, from the same context): smaller, more stable queries
+		if parts := splitAnd(goal.S, 24); len(parts) > 1 {
+			for k, p := range parts {
+				g := &Term{p, SBool}
+				o := &Obligation{Name: fmt.Sprintf("%s&%d", name, k+1), Func: ft.fn.String(), Kind: kind, PrefixLen: len(ft.cons), At: at, Goal: g, Pos: ft.posStr(pos), Clause: clause}
+				ft.obls = append(ft.obls, o)
+			}
+			ft.assume(at, goal)
+			return
+		}
+	}
+	o := &Obligation{Name: name, Func: ft.fn.String(), Kind: kind, PrefixLen: len(ft.cons), At: at, Goal: goal, Pos: ft.posStr(pos), Clause: clause}
 	ft.obls = append(ft.obls, o)
 	// assert-then-assume
 	ft.assume(at, goal)
+}
+
+var noSplit = os.Getenv("GOVC_NOSPLIT") != ""
+
+// splitAnd returns the top-level conjuncts of an s-expression "(and a b ...)" (nested ands flattened), or nil
+// when the term is not a conjunction or has more than max conjuncts.
+func splitAnd(s string, max int) []string {
+	var out []string
+	var rec func(t string) bool
+	rec = func(t string) bool {
+		if !strings.HasPrefix(t, "(and ") || !strings.HasSuffix(t, ")") {
+			out = append(out, t)
+			return len(out) <= max
+		}
+		body := t[5 : len(t)-1]
+		depth, start := 0, -1
+		inStr := false
+		for i := 0; i < len(body); i++ {
+			c := body[i]
+			if c == '"' {
+				inStr = !inStr
+			}
+			if inStr {
+				if start < 0 {
+					start = i
+				}
+				continue
+			}
+			switch {
+			case c == '(':
+				if depth == 0 && start < 0 {
+					start = i
+				}
+				depth++
+			case c == ')':
+				depth--
+				if depth == 0 && start >= 0 && body[start] == '(' {
+					if !rec(body[start : i+1]) {
+						return false
+					}
+					start = -1
+				}
+			case c == ' ' || c == '\n' || c == '\t':
+				if depth == 0 && start >= 0 {
+					if !rec(body[start:i]) {
+						return false
+					}
+					start = -1
+				}
+			default:
+				if depth == 0 && start < 0 {
+					start = i
+				}
+			}
+		}
+		if start >= 0 {
+			if !rec(body[start:]) {
+				return false
+			}
+		}
+		return true
+	}
+	if !strings.HasPrefix(s, "(and ") {
+		return nil
+	}
+	if !rec(s) {
+		return nil
+	}
+	return out
 }
 
 func (ft *FuncTr) cover(at *Term, kind, detail string) {
@@ -655,6 +739,13 @@ func (ft *FuncTr) run() error {
 		return err
 	}
 	ft.assumeRaw(Le(IntLit(0), ft.h.nextID(ft.init)))
+	if len(ft.w.guarded) > 0 {
+		// lock state is 0/1/2, and mutexes inside objects not allocated yet are free
+		hp := &Term{"hp", SPtr}
+		h0 := ft.h.ghostVar(ft.init, "$held", SArray(SPtr, SInt))
+		ft.assumeRaw(Forall([]Bound{{"hp", SPtr}}, And(Le(IntLit(0), Select(h0, hp)), Le(Select(h0, hp), IntLit(2)),
+			Implies(Le(ft.h.nextID(ft.init), PObjID(hp)), Eq(Select(h0, hp), IntLit(0)))), []*Term{Select(h0, hp)}))
+	}
 	// parameters
 	for _, p := range fn.Params {
 		s := ft.w.sortOf(ft.d, p.Type())
